@@ -131,6 +131,9 @@ def run(R):
                      "variant, each in its own position (children recursively, the rest cloned); greedy_order_scans leaves its loop only "
                      "when no scan remains, moves exactly the chosen scan from `remaining` to the order in every iteration, and returns "
                      "the patterns in that order without truncation")
+    R.rule("C02-R9", "the star plan accounts for every pattern of the join group: patterns outside the chosen stars are each joined back "
+                     "(skipped only when the pattern is marked as used by a star), every further star contributes all its patterns, and "
+                     "the patterns a star keeps are exactly those not used by an earlier star")
     R.rule("C02-R7", "parallel execution sees its whole input: what the rayon workers of the executor iterate over reaches them from the "
                      "operator's input rows only through element-preserving steps (par_chunks / par_iter / into_par_iter ...); no "
                      "hand-computed batches, no truncating adaptor - otherwise the answer depends on the thread count")
@@ -141,6 +144,7 @@ def run(R):
     r6(R)
     r7(R)
     r8(R)
+    r9(R)
 
 
 def r1(R):
@@ -603,3 +607,57 @@ def _field_of_plan(prog, b, op, depth=0):
                 if r:
                     return r
     return None
+
+
+def r9(R):
+    from lib import pipeline as P
+    prog = R.prog
+    bs = R.body("C02-R9", "Streamertail::build_star_join_from_patterns", crate="kolibrie")
+    if bs is not None:
+        R.saw(bs)
+        lo = P.loops_over(bs, ["all_patterns", "star_scans", "star_operators"])
+        ap = [x for x in lo.get("all_patterns", []) if any(c.name() == "bind_join" and c.bb in x[1] for c in bs.calls())]
+        R.ob("C02-R9", "leftover-loops", "leftover patterns are joined back in a loop over all patterns of the group (found %d loop)" % len(ap), len(ap) >= 2, where=bs.where())
+        for n, (h, blocks, names) in enumerate(ap):
+            whole = not [x for x in names if x not in ("iter", "into_iter", "deref", "enumerate")]
+            R.ob("C02-R9", "leftover-whole:%d" % n, "the loop ranges over every pattern (pipeline %s)" % names, whole, where=bs.where())
+            eff = {c.bb for c in bs.calls() if c.name() == "bind_join" and c.bb in blocks}
+            bad = []
+            for bb, tgt, cd in P.skip_edges(bs, h, blocks, eff):
+                if cd.get("kind") == "call" and cd["call"].name() == "contains" and cd.get("truth") is True:
+                    o = bs.origin(cd["call"].args[0], stop_named=True)
+                    if o[0] == "place" and "used" in (bs.local_name(o[1]["l"]) or ""):
+                        continue
+                if cd.get("kind") == "variant" and cd.get("variant") == "None":
+                    continue
+                bad.append(cd.get("kind") + (":" + cd["call"].name() if cd.get("kind") == "call" else ""))
+            R.ob("C02-R9", "leftover-skips:%d" % n, "a pattern is left out of the join-back only when a star already uses it (other skip conditions: %s)" % bad,
+                 not bad, where=bs.where(), detail=None if not bad else "a pattern of the group that is neither in a star nor joined back no longer constrains the solutions")
+        ss = lo.get("star_scans", [])
+        so = lo.get("star_operators", [])
+        R.ob("C02-R9", "other-stars", "every further star contributes all its patterns (loops over the stars and their scans, no truncation)",
+             len(ss) >= 1 and len(so) >= 1 and all(not [x for x in l[2] if x not in ("iter", "into_iter", "deref")] for l in ss + so), where=bs.where())
+        if ss:
+            h, blocks, names = ss[0]
+            eff = {c.bb for c in bs.calls() if c.name() == "bind_join" and c.bb in blocks}
+            R.ob("C02-R9", "other-stars-no-skip", "no scan of a further star is skipped", bool(eff) and not P.skips_effect(bs, h, blocks, eff), where=bs.where())
+    iq = R.body("C02-R9", "Streamertail::is_star_query", crate="kolibrie")
+    if iq is not None:
+        R.saw(iq)
+        # the patterns of a star = the variable's pattern indices minus those already used; all of them are marked used
+        marks = [c for c in iq.calls() if c.name() == "insert" and c.args and "used" in (iq.local_name(iq.alias_root(c.args[0]) or -1) or "")]
+        R.ob("C02-R9", "marks-used", "is_star_query marks the patterns it puts into a star as used", len(marks) >= 1, where=iq.where())
+        for c in marks:
+            drv = P.loop_driver(iq, c.bb)
+            names = P.flat(drv[2])[0] if drv and drv[2] is not None else ["?"]
+            roots = P.flat(drv[2])[1] if drv and drv[2] is not None else []
+            ok = not [x for x in names if x not in ("iter", "into_iter", "deref")] and any(r["k"] == "root" and r["name"] == "available" for r in roots)
+            R.ob("C02-R9", "marks-all", "every pattern taken into the star is marked (pipeline %s)" % names, ok, where=iq.where(c.ln))
+        # star patterns are built from the same `available` list
+        sp = [c for c in iq.calls() if c.name() == "collect" and iq.local_name(c.dest["l"]) == "star_patterns"]
+        oksp = False
+        for c in sp:
+            names, roots = P.flat(P.tree(iq, c.args[0], stop_named=True))
+            if any(r["k"] == "root" and r["name"] == "available" for r in roots) and not [x for x in names if x in ("take", "skip", "filter", "step_by", "take_while", "skip_while")]:
+                oksp = True
+        R.ob("C02-R9", "star-is-available", "the star consists of exactly the not-yet-used patterns of its variable", oksp, where=iq.where())
